@@ -20,12 +20,16 @@ SCALE = 1e-5       # deg / pixel
 FIELD = 1024
 
 
-def mkwcs(crpix, err=(0.0, 0.0), rot=10.0):
+# tangent points of the scenes: an ordinary one, two whose mosaics straddle RA = 0 / 360, a high declination
+TANGENT_POINTS = [(82.0, 12.0), (82.0, 12.0), (359.9945, -20.0), (359.9935, 35.0), (200.0, 78.0)]
+
+
+def mkwcs(crpix, err=(0.0, 0.0), rot=10.0, crval=(82.0, 12.0)):
     from astropy import wcs as fitswcs
     from tweakwcs.linearfit import build_fit_matrix
     w = fitswcs.WCS(naxis=2)
     w.wcs.cd = build_fit_matrix(rot, SCALE)
-    w.wcs.crval = (82.0 + err[0] * SCALE, 12.0 + err[1] * SCALE)
+    w.wcs.crval = ((crval[0] + err[0] * SCALE) % 360.0, crval[1] + err[1] * SCALE)
     w.wcs.crpix = crpix
     w.wcs.ctype = ['RA---TAN', 'DEC--TAN']
     w.pixel_shape = (FIELD, FIELD)
@@ -37,7 +41,7 @@ class Scene:
     """physical sources `G[id] = (X, Y)` in the global frame; junk ids are `JUNK0*(image+1) + id`"""
     JUNK0 = 10 ** 6
 
-    def __init__(self, nprng, lo=-12, hi=42):
+    def __init__(self, nprng, lo=-12, hi=42, crval=None):
         self.G = {}
         self.L = {}      # unjittered lattice point of every source
         k = 0
@@ -46,7 +50,9 @@ class Scene:
                 self.L[k] = (i * SP, j * SP)
                 self.G[k] = (i * SP + nprng.uniform(-JIT, JIT), j * SP + nprng.uniform(-JIT, JIT))
                 k += 1
-        self.truth = mkwcs((1.0, 1.0))
+        # (drawn after the lattice, so that the sources of a seed stay what they were)
+        self.crval = TANGENT_POINTS[int(nprng.integers(0, len(TANGENT_POINTS)))] if crval is None else tuple(crval)
+        self.truth = mkwcs((1.0, 1.0), crval=self.crval)
         self.ids = np.array(sorted(self.G))
         self.xy = np.array([self.G[k] for k in self.ids])
 
@@ -91,7 +97,7 @@ class Scene:
         from astropy.table import Table
         from tweakwcs import FITSWCSCorrector
         ox, oy = origin
-        w = mkwcs((1.0 - ox, 1.0 - oy), err)
+        w = mkwcs((1.0 - ox, 1.0 - oy), err, crval=self.crval)
         ins = self.inside(origin)
         if kind == 'good':
             ids = ins
@@ -110,6 +116,18 @@ class Scene:
         if gid is not None:
             meta['group_id'] = gid
         return FITSWCSCorrector(w, meta=meta), ids
+
+
+def scene_with(rng, wanted):
+    """(seed, Scene) whose tangent point is one of `wanted` (the seed alone rebuilds it: replays)"""
+    while True:
+        seed = rng.getrandbits(32)
+        sc = Scene(np.random.default_rng(seed))
+        if sc.crval in wanted:
+            return seed, sc
+
+
+WRAP_POINTS = [(359.9945, -20.0), (359.9935, 35.0)]   # RA = 0 runs through the middle of the mosaic
 
 
 # ------------------------------------------------------------------------------------------------
@@ -162,6 +180,29 @@ def footprint_after_expansion(refcat):
         a = abs(p.area())
         return min(a, 4 * math.pi - a)
     return (len(cat), ar(refcat.polygon), ar(fresh.polygon))
+
+
+def centroid_inside(refcat):
+    """the (convex) footprint of a reference catalog with >= 3 sources contains the mean direction of its
+    sources - an independent sanity check of where on the sphere the footprint was put"""
+    cat = refcat.catalog
+    if cat is None or len(cat) < 3:
+        return True
+    ra = np.deg2rad(np.asarray(cat['RA'], dtype=float))
+    dec = np.deg2rad(np.asarray(cat['DEC'], dtype=float))
+    v = np.array([np.cos(dec) * np.cos(ra), np.cos(dec) * np.sin(ra), np.sin(dec)]).mean(axis=1)
+    lon = float(np.rad2deg(np.arctan2(v[1], v[0])) % 360.0)
+    lat = float(np.rad2deg(np.arctan2(v[2], np.hypot(v[0], v[1]))))
+    try:
+        return bool(refcat.polygon.contains_lonlat(lon, lat))
+    except Exception:   # noqa
+        return None
+
+
+def misplaced_footprints(obs):
+    """ordering calls at which the reference footprint did not contain the centroid of its own sources"""
+    return [{'call': k, 'rows': oc.get('catlen')} for k, oc in enumerate(obs.order_calls)
+            if oc.get('fn') == 'next' and oc.get('ref_centroid_inside') is False]
 
 
 def stale_footprints(obs):
@@ -266,6 +307,8 @@ def observe(correctors=()):
         except Exception:
             catlen = None
         obs.order_calls.append({
+            'ref_centroid_inside': centroid_inside(refimage) if hasattr(refimage, 'catalog') and
+            hasattr(refimage, 'polygon') and not hasattr(refimage, '__iter__') else None,
             'catlen': catlen, 'work': [obs.kept.get(id(o)) for o in before],
             'fn': 'next', 'enforce': bool(enforce_user_order), 'n': len(before),
             'names': [names(g) for g in before],
@@ -431,7 +474,7 @@ def run_scenario(scene, spec, nprng):
         else:
             # a corrector with an exact WCS whose catalog lists the reference sources in pixels
             ox, oy = ref.get('origin', (0, 0))
-            w = mkwcs((1.0 - ox, 1.0 - oy))
+            w = mkwcs((1.0 - ox, 1.0 - oy), crval=scene.crval)
             xy = np.array([(scene.position(s)[0] - ox, scene.position(s)[1] - oy) for s in ref_ids]).reshape(-1, 2)
             refcat = FITSWCSCorrector(w, meta={'catalog': Table([xy[:, 0], xy[:, 1]], names=('x', 'y')),
                                                'name': 'refimage'})
